@@ -136,6 +136,12 @@ def templates(tier):
     # 6. adversarial attribute names
     for nm in ["__class__", "__dict__", "__doc__", "__init__", "__eq__", "__module__", "__dataclass_fields__", "__hash__", "__weakref__"]:
         T.append((f"attr:{nm}", ["#", (1, WS), "pytrapic: ", nm, (1, [0x20, ord(",")]), "compact\n"]))
+    # 8. every option, both polarities, both prefix spellings, '-'/'_' symbolic at one position
+    for o in OPTION_NAMES:
+        for pre in ("", "no-", "no_"):
+            spelled = o.replace("_", "-") if pre == "no-" else o
+            T.append((f"each:{pre}{o}", ["x = 1\n#", (1, WS), "pytrapic: ", pre + spelled, (1, [0x20, ord(","), 0x0A]), "\n"]))
+        T.append((f"each:onoff:{o}", ["# pytrapic: " + o + "\ny = 2\n# pytrapic:", (1, WS), "no", (1, [ord("-"), ord("_")]), o.replace("_", "-"), "\n"]))
     # 7. carriage returns
     T.append(("crlf", ["x = 1", (1, [0x0D, 0x0A]), (1, [0x0A, 0x20]), "# pytrapic: compact", (1, [0x0D, 0x20]), "\n"]))
     return T
@@ -265,7 +271,7 @@ def run(tier: str) -> int:
     items = []
     for name, parts in templates(tier):
         for bi in range(len(BASES)):
-            if tier == "quick" and bi and not name.startswith(("dash", "last", "in_string:")):
+            if tier == "quick" and bi and not name.startswith(("dash", "last", "in_string:", "each:")):
                 continue
             items.append(dict(name=name, parts=parts, base=bi))
     results = harness.pmap(task, items)
